@@ -1,0 +1,45 @@
+// Copyright 2020, Chef.  All rights reserved.
+// https://github.com/q191201771/lal
+//
+// Use of this source code is governed by a MIT-style license
+// that can be found in the License file.
+//
+// Author: Chef (191201771@qq.com)
+
+package hls
+
+import (
+	"testing"
+
+	"github.com/q191201771/naza/pkg/assert"
+)
+
+func TestCalcNextSeqInM3u8(t *testing.T) {
+	golden := []byte(`#EXTM3U
+#EXT-X-VERSION:3
+#EXT-X-ALLOW-CACHE:NO
+#EXT-X-TARGETDURATION:4
+#EXT-X-MEDIA-SEQUENCE:3
+
+#EXTINF:4.000,
+test110-1607342295000-3.ts
+#EXT-X-DISCONTINUITY
+#EXTINF:3.133,
+test110-1607342304000-4.ts
+#EXT-X-ENDLIST
+`)
+	nextSeq, ok := calcNextSeqInM3u8(golden)
+	assert.Equal(t, true, ok)
+	assert.Equal(t, 5, nextSeq)
+
+	for _, content := range []string{
+		"",
+		"#EXTM3U\n#EXT-X-VERSION:3\n#EXTINF:4.000,\na.ts\n",
+		"#EXTM3U\n#EXT-X-MEDIA-SEQUENCE:-1\n",
+		"#EXTM3U\n#EXT-X-MEDIA-SEQUENCE:abc\n",
+		"#EXTM3U\n#EXT-X-MEDIA-SEQUENCE:99999999999999999999\n",
+	} {
+		_, ok = calcNextSeqInM3u8([]byte(content))
+		assert.Equal(t, false, ok, content)
+	}
+}
